@@ -1,69 +1,350 @@
-import Beetswap.Model.Net
+import Beetswap.Proofs.NetClean
+import Beetswap.Proofs.NetInv
+import Beetswap.Proofs.NetRound
+import Beetswap.Proofs.NetProgress
 /-!
 Proofs about the two-node composition (C02, and the "records agree" consequence of C14).
 The statements below are used by `Props/C02` / `Props/C14`.
+
+`Reachable`, `InGap` and the invariant live in `NetDefs.lean`. Three of the six candidate
+statements were corrected after falsification (see `NET_NOTES.md`):
+* `settle_quiesces`: no fixed number of rounds suffices (a lookup task of `b` looks its CIDs up
+  one per round), the statement is `∃ n`;
+* `refresh_closes_gap`, `records_agree_after_refresh`: for any `n` such that settling for `n`
+  rounds after the refresh has reached quiescence, and under the hypothesis that the cap of the
+  serving node's record cannot bind (at most `maxWantlistEntries` queries issued so far).
 -/
 namespace Beetswap.Proofs.Net
 open Std Beetswap.Net Beetswap.Wl
-open Beetswap.Client (PeerSt)
+open Beetswap.Client (PeerSt Sending StoreRes Out TaskSt TaskKind Sys sendFullInterval)
+open Beetswap.Spec.ClientSpec (GSys Ghost gstep grun GInv)
 
-/-- Every state the two connected nodes can reach: any user behaviour at the requesting node (any
-gets, cancels, refresh expiries) interleaved in any order with any scheduling of the internal
-actions (drains, blockstore completions in any order, deliveries). -/
-inductive Reachable (store : KMap Nat) : State → Prop where
-  | init : Reachable store (init store)
-  | step {s} (act : Act) : Reachable store s → Reachable store (step s act)
+/-! ### Quiescence -/
 
-/-- The tolerated gap of C04 / C02: `a` believes `b` still holds its want for `k` (exchange state
-`SentWantHave` or `SentWantBlock`), but `b` has already served and forgotten it. -/
-def InGap (s : State) (k : Nat) : Prop :=
-  (∃ ps : PeerSt, s.a.client.peers[1]? = some ps ∧
-    (ps.wl.req[k]? = some Req.sentWantHave ∨ ps.wl.req[k]? = some Req.sentWantBlock)) ∧
-  (∀ set : KSet, s.b.server.wl[0]? = some set → k ∉ set)
+structure Quiet (s : State) : Prop where
+  wireAB : s.wireAB = []
+  wireBA : s.wireBA = []
+  callsA : s.callsA = []
+  putsA : s.putsA = []
+  callsB : s.callsB = []
+  outA : (Node.step s.a (.drain [] [])).2.1 = []
+  outB : (Node.step s.b (.drain [] [])).2.1 = []
+  runqA : s.a.client.runq = []
+  runqB : s.b.server.runq = []
+  outqB : s.b.server.outq = []
+  queueA : s.a.client.queue = []
 
-/-- The number of rounds of the canonical fair schedule that always suffice to settle. To be
-fixed by the proof engineer to the smallest value for which the theorems hold (a concrete
-numeral). -/
-def settleRounds : Nat := 6
+theorem quiet_of_quiescent (s : State) (h : quiescent s = true) : Quiet s := by
+  simp only [quiescent, Bool.and_eq_true, List.isEmpty_iff] at h
+  obtain ⟨⟨⟨⟨⟨⟨⟨⟨⟨⟨h1, h2⟩, h3⟩, h4⟩, h5⟩, h6⟩, h7⟩, h8⟩, h9⟩, h10⟩, h11⟩ := h
+  exact ⟨h1, h2, h3, h4, h5, h6, h7, h8, h9, h10, h11⟩
 
-/-- Progress: from every reachable state the canonical fair schedule reaches quiescence within a
-fixed number of rounds (each round = at most one wantlist exchange and one block exchange). -/
+/-- At quiescence the exchange state of every wanted CID is `SentWantHave`, and every other
+exchange entry is `GotBlock`. -/
+theorem quiet_req (g : GS) (ha : AInv g) (hq : Quiet g.s) :
+    (∀ k, k ∈ g.s.a.client.wantlist.cids → (apeer g.s).wl.req[k]? = some Req.sentWantHave) ∧
+    (∀ k r, (apeer g.s).wl.req[k]? = some r → k ∉ g.s.a.client.wantlist.cids → r = Req.gotBlock) := by
+  obtain ⟨_, _, he⟩ := quiet_a g ha hq.runqA hq.wireAB hq.outA
+  obtain ⟨e1, e2⟩ := genUpdate_empty g.s.a.client (apeer g.s) (ahist g) ha.peerInv he
+  refine ⟨?_, e2⟩
+  intro k hk
+  cases hr : (apeer g.s).wl.req[k]? with
+  | none => exact absurd hr (e1 k hk)
+  | some r =>
+    rcases ha.reqvals k r hr with rfl | rfl
+    · rfl
+    · exact absurd hk (ha.peerInv.got_unwanted k hr)
+
+theorem mem_wants (s : State) (k : Nat) : k ∈ wants s ↔ k ∈ s.a.client.wantlist.cids := by
+  unfold wants; exact ExtTreeSet.mem_toList
+
+theorem mem_bset (s : State) (k : Nat) :
+    k ∈ bset s ↔ ∃ set, s.b.server.wl[0]? = some set ∧ k ∈ set := by
+  unfold bset
+  cases s.b.server.wl[0]? with
+  | none => simp [ExtTreeSet.not_mem_empty]
+  | some set => simp
+
+/-! ### The theorems -/
+
+/-- Progress: from every reachable state the canonical fair schedule reaches quiescence. (No
+fixed number of rounds suffices: `n` distinct gets need `n + 2` rounds, see `NET_NOTES.md`.) -/
 theorem settle_quiesces (store : KMap Nat) (s : State) (h : Reachable store s) :
-    quiescent (settle settleRounds s) = true := by
-  sorry
+    ∃ n, quiescent (settle n s) = true :=
+  settle_terminates store s (pinv_reach store s h)
 
 /-- C02 (no deadlock): at quiescence every CID `a` still wants is either not held by `b`, or in
 the tolerated gap. -/
 theorem quiescent_answered_or_gap (store : KMap Nat) (s : State) (h : Reachable store s)
     (hq : quiescent s = true) (k : Nat) (hk : k ∈ wants s) :
     s.storeB[k]? = none ∨ InGap s k := by
-  sorry
-
-/-- C02 (one refresh later): after the wantlist refresh and settling, `a` wants nothing that `b`
-holds: every such query has received its block. -/
-theorem refresh_closes_gap (store : KMap Nat) (s : State) (h : Reachable store s)
-    (hq : quiescent s = true) (k : Nat)
-    (hk : k ∈ wants (settle settleRounds (step s .refresh))) :
-    (settle settleRounds (step s .refresh)).storeB[k]? = none := by
-  sorry
+  obtain ⟨g, rfl, hi⟩ := reach_ninv store s h
+  have hQ := quiet_of_quiescent g.s hq
+  cases hst : g.s.storeB[k]? with
+  | none => exact Or.inl rfl
+  | some d =>
+    right
+    obtain ⟨ps, hps⟩ := hi.a.peer1
+    have hreq := (quiet_req g hi.a hQ).1 k ((mem_wants g.s k).1 hk)
+    rw [apeer_eq hps] at hreq
+    refine ⟨⟨ps, hps, Or.inl hreq⟩, ?_⟩
+    intro set hset hmem
+    have hkb : k ∈ bset g.s := (mem_bset g.s k).2 ⟨set, hset, hmem⟩
+    have := binv_idle_not_held g.s hi.b hQ.runqB hQ.callsB k hkb
+    rw [hst] at this; cases this
 
 /-- C02: a response always carries the serving node's bytes for the queried CID. -/
 theorem answers_are_store_bytes (store : KMap Nat) (s : State) (h : Reachable store s)
     (q d : Nat) (ha : (q, d) ∈ s.answered) : ∃ k : Nat, s.storeB[k]? = some d := by
-  sorry
+  obtain ⟨g, rfl, hi⟩ := reach_ninv store s h
+  exact hi.a.answered_ok (q, d) ha
 
 /-- C14 (records agree): whenever nothing is in flight and nothing is left to do, the serving
-side's record of the requester's wants is contained in the requester's live wants, and after a
-refresh it equals them for everything the server does not hold. -/
+side's record of the requester's wants is contained in the requester's live wants. -/
 theorem records_agree (store : KMap Nat) (s : State) (h : Reachable store s)
     (hq : quiescent s = true) (set : KSet) (hs : s.b.server.wl[0]? = some set) (k : Nat) (hk : k ∈ set) :
     k ∈ wants s := by
-  sorry
+  obtain ⟨g, rfl, hi⟩ := reach_ninv store s h
+  have hQ := quiet_of_quiescent g.s hq
+  have hkb : k ∈ bset g.s := (mem_bset g.s k).2 ⟨set, hs, hk⟩
+  have hnone := binv_idle_not_held g.s hi.b hQ.runqB hQ.callsB k hkb
+  have htold : k ∈ (ahist g).told :=
+    hi.x.set_told k hkb (by rw [hQ.wireAB]; intro m hm; cases hm)
+  have hnd : k ∉ (ahist g).deliv := by
+    intro hd
+    obtain ⟨d, hd⟩ := hi.x.deliv_store k hd
+    rw [hnone] at hd; cases hd
+  rw [mem_wants]
+  apply Classical.byContradiction
+  intro hnw
+  cases hr : (apeer g.s).wl.req[k]? with
+  | none => exact hnd (hi.a.peerInv.told_tracked k htold hr)
+  | some r =>
+    have := (quiet_req g hi.a hQ).2 k r hr hnw
+    subst this
+    exact hnd (hi.a.peerInv.got_deliv k hr)
 
+/-- a state with its history, the invariant, `Clean`, and a fixed list of issued gets -/
+def CleanAt (store : KMap Nat) (asked : List Nat) (s : State) : Prop :=
+  ∃ g : GS, g.s = s ∧ NInv store g ∧ Clean g ∧ g.asked = asked
+
+theorem cleanAt_internal (store : KMap Nat) (asked : List Nat) (s : State) (act : Act)
+    (hact : act.internal = true) (h : CleanAt store asked s) : CleanAt store asked (step s act) := by
+  obtain ⟨g, rfl, hi, hc, hask⟩ := h
+  have hi' := ninv_step store g act hi
+  refine ⟨gnext g act, rfl, hi', clean_internal g act hact hi.a hc hi'.a, ?_⟩
+  rw [gnext_asked g act (by intro k hk; subst hk; cases hact)]
+  exact hask
+
+/-- At a quiescent `Clean` state (cap not binding) `a` wants nothing that `b` holds, and `b`'s
+record is exactly `a`'s wantlist. -/
+theorem clean_quiet (store : KMap Nat) (g : GS) (hi : NInv store g) (hc : Clean g) (hQ : Quiet g.s)
+    (hcap : g.asked.length ≤ Server.maxWantlistEntries) (k : Nat) (hk : k ∈ g.s.a.client.wantlist.cids) :
+    g.s.storeB[k]? = none ∧ k ∈ bset g.s := by
+  have hreq := (quiet_req g hi.a hQ).1 k hk
+  have htold := hi.a.peerInv.asked_told k (Or.inl hreq)
+  have hnd := hc.fresh k hk
+  have hb : k ∈ bset g.s := by
+    rcases hi.x.told_set hcap k htold with h | ⟨bs, hbs, _⟩ | ⟨m, hm, _⟩ | ⟨h, _⟩
+    · exact absurd h hnd
+    · rw [hQ.wireBA] at hbs; cases hbs
+    · rw [hQ.wireAB] at hm; cases hm
+    · exact h
+  exact ⟨binv_idle_not_held g.s hi.b hQ.runqB hQ.callsB k hb, hb⟩
+
+/-- The refresh timer expires in a quiescent state: `a` is no longer quiescent, and its next drain
+hands the full wantlist to `b` and establishes `Clean`. -/
+theorem refresh_clean (store : KMap Nat) (g : GS) (hi : NInv store g) (hQ : Quiet g.s) :
+    quiescent (step g.s .refresh) = false ∧
+    CleanAt store g.asked (step (step g.s .refresh) .drainA) := by
+  have hi1 := ninv_step store g .refresh hi
+  have hi2 := ninv_step store (gnext g .refresh) .drainA hi1
+  -- the state after the tick
+  have hcl : (step g.s .refresh).a.client = g.s.a.client := rfl
+  have hnow : (step g.s .refresh).a.now = g.s.a.now + sendFullInterval := rfl
+  have hrunq : (gnext g .refresh).s.a.client.runq = [] := hQ.runqA
+  have hwire : (gnext g .refresh).s.wireAB = [] := hQ.wireAB
+  have hdl : (gnext g .refresh).s.a.client.deadline ≤ (gnext g .refresh).s.a.now := hi.a.deadline
+  have htasks : g.s.a.client.tasks = [] := ainv_idle_tasks g hi.a hQ.runqA hQ.callsA hQ.putsA
+  constructor
+  · cases hqq : quiescent (step g.s .refresh) with
+    | false => rfl
+    | true =>
+      have hQ1 := quiet_of_quiescent _ hqq
+      exact absurd hdl (quiet_a (gnext g .refresh) hi1.a hrunq hwire hQ1.outA).2.1
+  · refine ⟨gnext (gnext g .refresh) .drainA, rfl, hi2, ?_, rfl⟩
+    obtain ⟨_, hhist⟩ := drainA_sent (gnext g .refresh) hi1.a hi2.a
+    obtain ⟨m1, m2, _⟩ := midA_norun (gnext g .refresh).s hrunq
+    -- a full wantlist is sent
+    cases hs : sentA (gnext g .refresh).s with
+    | none =>
+      -- impossible: the deadline has passed
+      obtain ⟨ps2, h2, hsd, hcn, hsf, _, hne, _⟩ := midA_peer (gnext g .refresh) hi1.a
+      obtain ⟨ps2', h2', he⟩ := sentA_eq (gnext g .refresh) hi1.a
+      rw [h2] at h2'; cases h2'
+      have hready : ps2.sending = .ready := by
+        rw [hsd]
+        rcases hi1.a.wire with ⟨h, _⟩ | ⟨_, m, hm⟩
+        · exact h
+        · rw [hwire] at hm; cases hm
+      rw [hs] at he
+      have := (updatePeer_none_ready _ _ ps2 hready hne he.symm).1
+      rw [hsf] at this
+      simp only [Bool.or_eq_false_iff, decide_eq_false_iff_not] at this
+      exact absurd hdl this.2
+    | some cm =>
+      obtain ⟨c, m⟩ := cm
+      have hok := sentA_ok (gnext g .refresh) hi1.a c m hs
+      have hfull : m.full = true := by
+        rw [hok.full_iff]
+        simp only [Bool.or_eq_true, decide_eq_true_eq]
+        exact Or.inr hdl
+      constructor
+      · show ∀ t ∈ (step (gnext g .refresh).s .drainA).a.client.tasks, _
+        rw [step_drainA_a _ hi1.a.srv, drainedA_tasks, drain_tasks]
+        show ∀ t ∈ (midA (gnext g .refresh).s).tasks, _
+        rw [m2]
+        show ∀ t ∈ g.s.a.client.tasks, _
+        rw [htasks]
+        intro t ht; cases ht
+      · show ∀ k, k ∈ (step (gnext g .refresh).s .drainA).a.client.wantlist.cids → _
+        rw [drainA_wantlist _ hi1.a, hhist, hs]
+        intro k hk hkd
+        have hmem := hok.full_all hfull k hk
+        simp only [ClientView.afterSend] at hkd
+        exact ((ClientView.recordSend_deliv _ _ _ k).1 hkd).2.1 hmem
+
+/-- The state reached by settling after a refresh from quiescence. -/
+theorem refresh_settled (store : KMap Nat) (s : State) (h : Reachable store s)
+    (hq : quiescent s = true) (n : Nat) (hn : quiescent (settle n (step s .refresh)) = true) :
+    ∃ g : GS, g.s = settle n (step s .refresh) ∧ NInv store g ∧ Clean g ∧
+      g.asked.length = s.a.client.nextQuery := by
+  obtain ⟨g, rfl, hi⟩ := reach_ninv store s h
+  have hQ := quiet_of_quiescent g.s hq
+  obtain ⟨hnq, hcl⟩ := refresh_clean store g hi hQ
+  cases n with
+  | zero =>
+    simp only [settle] at hn
+    rw [hnq] at hn; cases hn
+  | succ n =>
+    have e : settle (n + 1) (step g.s .refresh) =
+        settle n (roundTail (step (step g.s .refresh) .drainA)) := by
+      rw [settle, hnq]; simp only [Bool.false_eq_true, if_false]; rw [round_eq]
+    have hP : ∀ s act, act.internal = true → CleanAt store g.asked s → CleanAt store g.asked (step s act) :=
+      fun s act ha h => cleanAt_internal store g.asked s act ha h
+    have := settle_closed _ hP n _ (roundTail_closed _ hP _ hcl)
+    obtain ⟨g', hs', hi', hc', hask'⟩ := this
+    exact ⟨g', by rw [hs', e], hi', hc', by rw [hask', hi.a.asked_len]⟩
+
+/-- C02 (one refresh later): after the wantlist refresh and settling, `a` wants nothing that `b`
+holds: every such query has received its block. Holds whenever settling (for any number `n` of
+rounds) has reached quiescence (`settle_quiesces`: it does), as long as the cap of `b`'s record
+cannot bind (at most `maxWantlistEntries` queries issued so far; see `NET_NOTES.md` for the
+counterexample beyond the cap). -/
+theorem refresh_closes_gap (store : KMap Nat) (s : State) (h : Reachable store s)
+    (hq : quiescent s = true) (hcap : s.a.client.nextQuery ≤ Server.maxWantlistEntries) (n : Nat)
+    (hn : quiescent (settle n (step s .refresh)) = true) (k : Nat)
+    (hk : k ∈ wants (settle n (step s .refresh))) :
+    (settle n (step s .refresh)).storeB[k]? = none := by
+  obtain ⟨g, hs, hi, hc, hask⟩ := refresh_settled store s h hq n hn
+  rw [← hs] at hn hk ⊢
+  exact (clean_quiet store g hi hc (quiet_of_quiescent g.s hn) (by rw [hask]; exact hcap) k
+    ((mem_wants g.s k).1 hk)).1
+
+/-- C14 (records agree, after a refresh): … and then the serving side's record equals the
+requester's live wants (which are all for blocks the server does not hold). -/
 theorem records_agree_after_refresh (store : KMap Nat) (s : State) (h : Reachable store s)
-    (hq : quiescent s = true) (k : Nat) :
-    let s' := settle settleRounds (step s .refresh)
+    (hq : quiescent s = true) (hcap : s.a.client.nextQuery ≤ Server.maxWantlistEntries) (n : Nat)
+    (hn : quiescent (settle n (step s .refresh)) = true) (k : Nat) :
+    let s' := settle n (step s .refresh)
     (k ∈ wants s' ↔ ∃ set, s'.b.server.wl[0]? = some set ∧ k ∈ set) := by
-  sorry
+  intro s'
+  obtain ⟨g, hs, hi, hc, hask⟩ := refresh_settled store s h hq n hn
+  have hs' : s' = g.s := hs.symm
+  rw [hs']
+  have hQ : Quiet g.s := quiet_of_quiescent g.s (by rw [hs]; exact hn)
+  constructor
+  · intro hk
+    exact (mem_bset g.s k).1 (clean_quiet store g hi hc hQ (by rw [hask]; exact hcap) k
+      ((mem_wants g.s k).1 hk)).2
+  · rintro ⟨set, hset, hmem⟩
+    have hreach : Reachable store g.s := by
+      rw [hs]
+      have hP : ∀ s act, act.internal = true → Reachable store s → Reachable store (step s act) :=
+        fun s act _ h => .step act h
+      exact settle_closed _ hP n _ (.step .refresh h)
+    exact records_agree store g.s hreach (by rw [hs]; exact hn) set hset k hmem
+
+/-! ### Settling is stable, and the refresh theorems without the explicit round count -/
+
+theorem settle_of_quiescent (n : Nat) (s : State) (h : quiescent s = true) : settle n s = s := by
+  cases n with
+  | zero => rfl
+  | succ n => rw [settle, h]; rfl
+
+/-- once quiescence is reached further rounds change nothing -/
+theorem settle_stable (n d : Nat) (s : State) (h : quiescent (settle n s) = true) :
+    settle (n + d) s = settle n s := by
+  induction n generalizing s with
+  | zero => simp only [settle] at h ⊢; rw [Nat.zero_add]; exact settle_of_quiescent d s h
+  | succ n ih =>
+    rw [show n + 1 + d = (n + d) + 1 by omega]
+    rw [settle] at h ⊢
+    conv => rhs; rw [settle]
+    cases hq : quiescent s with
+    | true => simp
+    | false =>
+      simp only [hq, Bool.false_eq_true, if_false] at h ⊢
+      exact ih _ h
+
+/-- C02, in one statement: after a refresh from a quiescent state the canonical schedule settles
+again, and then `a` wants nothing that `b` holds. -/
+theorem refresh_then_settled (store : KMap Nat) (s : State) (h : Reachable store s)
+    (hq : quiescent s = true) (hcap : s.a.client.nextQuery ≤ Server.maxWantlistEntries) :
+    ∃ n, quiescent (settle n (step s .refresh)) = true ∧
+      ∀ k, k ∈ wants (settle n (step s .refresh)) → (settle n (step s .refresh)).storeB[k]? = none := by
+  obtain ⟨n, hn⟩ := settle_quiesces store (step s .refresh) (.step .refresh h)
+  exact ⟨n, hn, fun k hk => refresh_closes_gap store s h hq hcap n hn k hk⟩
+
+/-! ### The gap is real: a witness -/
+
+theorem reachable_run (store : KMap Nat) (acts : List Act) (s : State) (h : Reachable store s) :
+    Reachable store (run s acts) := by
+  unfold run
+  induction acts generalizing s with
+  | nil => exact h
+  | cons a acts ih => exact ih _ (.step a h)
+
+theorem reachable_settle (store : KMap Nat) (n : Nat) (s : State) (h : Reachable store s) :
+    Reachable store (settle n s) :=
+  settle_closed _ (fun _ act _ h => .step act h) n s h
+
+/-- `b` holds CID 0 only. -/
+def gapStore : KMap Nat := (∅ : KMap Nat).insert 0 100
+
+/-- `a` asks for CID 0, `b` serves it; the query is cancelled while the block is in flight (the
+block is dropped on arrival) and CID 0 is asked for again while another wantlist is in flight (so
+no cancel entry ever leaves `a`). -/
+def gapTrace : List Act :=
+  [.get 0, .drainA, .lookupA 0, .drainA, .deliverAB, .drainA, .deliverAB,
+   .get 1, .drainA, .lookupA 1, .drainA, .drainB, .lookupB 0, .drainB, .cancel 0, .deliverBA,
+   .get 0, .drainA, .lookupA 2, .drainA, .deliverAB, .drainA]
+
+/-- The tolerated gap occurs: a reachable quiescent state in which `a` wants CID 0, `b` holds
+it, `a` believes `b` has its want (`SentWantHave`) and `b` has served and forgotten it. So the
+second disjunct of `quiescent_answered_or_gap` cannot be dropped; only the refresh
+(`refresh_closes_gap`) gets the block to `a`. -/
+theorem gap_witness :
+    ∃ s, Reachable gapStore s ∧ quiescent s = true ∧ 0 ∈ wants s ∧ s.storeB[(0 : Nat)]? = some 100 ∧
+      InGap s 0 := by
+  have hr : Reachable gapStore (settle 6 (run (init gapStore) gapTrace)) :=
+    reachable_settle _ _ _ (reachable_run _ _ _ .init)
+  have hq : quiescent (settle 6 (run (init gapStore) gapTrace)) = true := by decide
+  have hw : 0 ∈ wants (settle 6 (run (init gapStore) gapTrace)) := by decide
+  have hs : (settle 6 (run (init gapStore) gapTrace)).storeB[(0 : Nat)]? = some 100 := by decide
+  refine ⟨_, hr, hq, hw, hs, ?_⟩
+  rcases quiescent_answered_or_gap gapStore _ hr hq 0 hw with h | h
+  · rw [hs] at h; cases h
+  · exact h
 
 end Beetswap.Proofs.Net
